@@ -47,6 +47,17 @@ Example C13_join_example :
   error_text (Multi 102%positive MJoin [a; b]) = lit "a" ++ [nl] ++ lit "no such file or directory".
 Proof. vm_compute. reflexivity. Qed.
 
+(* the one_line hypothesis is necessary: a branch whose text ends in a newline (likewise an empty text or a blank
+   line) loses that newline, because the join prints through the engine's Write.  The witness replayed on the
+   implementation is the recorded finding join-blank-line-branch: Join(New("x\n"), New("c")).Error() = "x\nc". *)
+Theorem C13_join_text_blank_refuted : exists i cs,
+  cs <> [] /\ error_text (Multi i MJoin cs) <> join [nl] (List.map error_text cs).
+Proof.
+  exists 110%positive, [Leaf 100%positive (LErrString (lit "x" ++ [nl])); Leaf 102%positive (LErrString (lit "c"))].
+  split; [discriminate|]. vm_compute. discriminate.
+Qed.
+Print Assumptions C13_join_text_blank_refuted.
+
 (* on the wire: branch count and order are those of the error *)
 Theorem C13_wire_shape : forall e, enc_shape (encode e) = err_shape e.
 Proof. exact encode_shape. Qed.
